@@ -657,6 +657,49 @@ theorem isErr_sound {r : Res Tree} {k : PErr} {p : Nat} (h : isErr r k p = true)
     rw [h.1, h.2]
   | _ => simp [isErr] at h
 
+/-- (for concrete evaluations) equality of parser states, field by field -/
+def pstateBeq (a b : PState) : Bool :=
+  a.backrefs == b.backrefs && a.flags == b.flags && a.namedGroups == b.namedGroups &&
+  a.numericBackrefs == b.numericBackrefs && a.currGroup == b.currGroup &&
+  a.lastReHadAlt == b.lastReHadAlt
+
+theorem pstateBeq_sound {a b : PState} (h : pstateBeq a b = true) : a = b := by
+  cases a; cases b
+  simp only [pstateBeq, Bool.and_eq_true, beq_iff_eq] at h
+  obtain ⟨⟨⟨⟨⟨h1, h2⟩, h3⟩, h4⟩, h5⟩, h6⟩ := h
+  simp only at h1 h2 h3 h4 h5 h6
+  subst h1 h2 h3 h4 h5 h6
+  rfl
+
+/-- (for concrete evaluations) the outcome of a descent function is this triple -/
+def isOk3 (r : Res (Nat × Expr × PState)) (ix : Nat) (e : Expr) (st : PState) : Bool :=
+  match r with
+  | .ok (ix', e', st') => ix' == ix && exprBeq e' e && pstateBeq st' st
+  | _ => false
+
+theorem isOk3_sound {r : Res (Nat × Expr × PState)} {ix : Nat} {e : Expr} {st : PState}
+    (h : isOk3 r ix e st = true) : r = .ok (ix, e, st) := by
+  cases r with
+  | ok t =>
+    obtain ⟨ix', e', st'⟩ := t
+    simp only [isOk3, Bool.and_eq_true, beq_iff_eq] at h
+    rw [h.1.1, exprBeq_sound _ _ h.1.2, pstateBeq_sound h.2]
+  | _ => simp [isOk3] at h
+
+/-- (for concrete evaluations) the outcome is this value -/
+def isOkVal {α : Type} [BEq α] (r : Res α) (a : α) : Bool :=
+  match r with
+  | .ok a' => a' == a
+  | _ => false
+
+theorem isOkVal_sound {α : Type} [BEq α] [LawfulBEq α] {r : Res α} {a : α}
+    (h : isOkVal r a = true) : r = .ok a := by
+  cases r with
+  | ok a' =>
+    simp only [isOkVal, beq_iff_eq] at h
+    rw [h]
+  | _ => simp [isOkVal] at h
+
 -- kernel evaluation of the parser model on a concrete pattern
 example : parseStr (fun c => c.isAlphanum) "a\\.b".toList false =
     .ok ⟨.concat [.literal ['a'] false, .literal ['.'] false, .literal ['b'] false], [], []⟩ :=
